@@ -5,7 +5,7 @@
 //! them on purpose.
 #![allow(dead_code)]
 use crate::c09::{element_with_exponent, Sylow};
-use crate::model::{b, B};
+use crate::model::{b, Fld, B};
 use crate::poly::{pmul, psub, roots, Poly};
 use crate::sh::Ctx;
 use rand_core::RngCore;
@@ -150,7 +150,24 @@ pub fn elligator_preimages(ctx: &Ctx, target: &crate::model::Pt, rng: &mut impl 
 /// structured values for an *intermediate* quantity: zero low limb(s), all-ones low limb, 2-adic relations
 /// with the modulus (routines that work on limbs of an intermediate meet their special cases there)
 pub fn intermediate_targets(p: &B) -> Vec<B> {
-    let mut t: Vec<B> = crate::zoo::two_adic_relations(p);
+    // first the values tied to the internal (Montgomery) representation: the element stored as the integer
+    // 1, 2, -1, and R, R^2 themselves (a shortcut that recognises "one" / "small" on the stored words
+    // instead of the canonical value fires on exactly these)
+    let mut t: Vec<B> = Vec::new();
+    {
+        let f = Fld::new(p.clone());
+        let r = (b(1) << (64 * ((f.bits + 63) / 64))) % p;
+        let rinv = f.inv(&r).unwrap();
+        t.push(rinv.clone());
+        t.push(f.neg(&rinv));
+        t.push(f.mul(&b(2), &rinv));
+        t.push(f.sq(&rinv));
+        t.push(r.clone());
+        t.push(f.sq(&r));
+        t.push(b(1));
+        t.push(p - b(1));
+    }
+    t.extend(crate::zoo::two_adic_relations(p));
     for k in 1u64..=24 {
         for sh in [64usize, 128, 192] {
             let v = b(k.wrapping_mul(0x9E37_79B9) | 1) << sh;
@@ -176,6 +193,14 @@ pub fn decode_s_for_intermediates(ctx: &Ctx, rng: &mut impl RngCore) -> Vec<B> {
         // u2 = T  =>  t^2 - (2 + 4d) t + (1 - T) = 0
         let quad: Poly = vec![f.sub(&b(1), &tg), f.neg(&two_plus_4d), b(1)];
         ts.extend(roots(f, &quad, rng));
+        // the argument of the inverse square root, u2 * u1^2 = T (a quartic in t = s^2), and its inverse
+        let u1: Poly = vec![b(1), f.neg(&b(1))];
+        let u1sq = pmul(f, &u1, &u1);
+        let u2: Poly = psub(f, &u1sq, &vec![b(0), f.mul(&b(4), &c.d)]);
+        let arg = pmul(f, &u2, &u1sq);
+        for tv in [Some(tg.clone()), f.inv(&tg)].into_iter().flatten() {
+            ts.extend(roots(f, &psub(f, &arg, &vec![tv]), rng));
+        }
         for t in ts {
             if let Some(s) = f.sqrt(&t) {
                 out.push(f.abs(&s));
@@ -250,4 +275,16 @@ pub fn elligator_radicand(ctx: &Ctx, r0: &B) -> B {
     let f = &c.f;
     let r = f.mul(&c.zeta, &f.sq(r0));
     crate::poly::peval(f, &elligator_radicand_poly(ctx), &r)
+}
+
+/// A rescaling factor lambda for which the argument of the inverse square root inside the encoder,
+/// (X^2 - T^2)(a - d) X^2 = lambda^4 (a-d) x^4 (1-y^2) for the presentation (lambda x : lambda y : lambda : lambda x y),
+/// equals `target` (None when target/arg(1) has no fourth root, which happens for 3 elements out of 4).
+pub fn lambda_for_encoder_radicand(c: &crate::model::Curve, pt: &crate::model::Pt, target: &B) -> Option<B> {
+    let f = &c.f;
+    let x2 = f.sq(&pt.x);
+    let arg1 = f.mul(&f.mul(&f.sub(&c.a, &c.d), &f.sq(&x2)), &f.sub(&b(1), &f.sq(&pt.y)));
+    let q = f.mul(target, &f.inv(&arg1)?);
+    let h = f.sqrt(&q)?;
+    f.sqrt(&h).or_else(|| f.sqrt(&f.neg(&h)))
 }
